@@ -625,6 +625,10 @@ def native_replay(unit, ob, outdir):
     scratch = tempfile.mkdtemp(prefix='zreplay.')
     try:
         prepare_scratch({'loop_contracts': [], 'extract': unit.get('extract', [])}, scratch)
+        if rp.get('link_rest', True):
+            # the extracted (non-static) functions come from the real files linked below
+            for ex in unit.get('extract', []):
+                open(os.path.join(scratch, ex['as']), 'w').write('/* native replay: %s linked from the real %s */\n' % (', '.join(ex['functions']), ex['file']))
         lines = ['/* counterexample inputs extracted from the CBMC trace of %s */' % ob['name']]
         unit_text = open(os.path.join(VERIF, unit['file'])).read()
         alltypes = re.findall(r'^V_INPUT\((\w+)\)', unit_text, flags=re.M)
